@@ -9,6 +9,18 @@
 (* of the protected stream; with no TLS configuration the handshake names  *)
 (* the session's own domain, also when one feature value is reused.        *)
 (* The peer is adversarial; one action per protocol step of the client.    *)
+(*                                                                         *)
+(* Addresses.  A session is made for an own address (origin) and a         *)
+(* location (the name of the entity it connects to, which the peer echoes  *)
+(* in the `from` of its stream headers): NewClientSession derives the      *)
+(* location from the own address, NewSession / DialSession take both, and  *)
+(* an initiating server-to-server session has a domain as its own address. *)
+(* The two names are independent; the server name of the default TLS       *)
+(* configuration is the domain of the OWN address (property text; doc      *)
+(* comment of xmpp.StartTLS: "the domainpart of the sessions local         *)
+(* address") in its canonical form, whatever the location, whatever the    *)
+(* spelling of the address, whatever the peer's headers say, and whatever  *)
+(* sessions were negotiated with the same feature value before.            *)
 (***************************************************************************)
 EXTENDS Integers, Sequences, FiniteSets, TLC
 
@@ -33,7 +45,52 @@ VARIABLES
 
 vars == <<phase, layer, bits, clearOut, pendClear, pendTLS, used, sni, result, script>>
 
-Scripts == [feat : FeatVariants, answer : Answers, inject : Injects, hs : HsOutcomes, cfg : {"default", "explicit"}]
+(* the peer's behaviour and the TLS configuration given to xmpp.StartTLS *)
+PeerScripts == [feat : FeatVariants, answer : Answers, inject : Injects, hs : HsOutcomes, cfg : {"default", "explicit"}]
+
+(* The address dimension.  Names are symbols: d1..d3 own domains, l1..l3 names of     *)
+(* locations that are nobody's own domain.                                            *)
+Kinds == {"client", "c2s", "s2s"}   \* NewClientSession(origin) | NewSession(location, origin, 0) | NewSession(location, origin, S2S)
+DomOf == <<"d1", "d2", "d3">>
+LocOf == <<"l1", "l2", "l3">>
+OwnDoms == {DomOf[i] : i \in 1..3}
+LocNames == {LocOf[i] : i \in 1..3}
+Names == OwnDoms \cup LocNames \cup {"explicit", "other"}
+(*  own    domain of the session's own address (kind s2s: the address IS that domain)           *)
+(*  loc    the location                                                                          *)
+(*  spell  how the domain of the own address is spelled where the address is given: "upper" is  *)
+(*         the same address (domain names are case-insensitive, addresses are canonicalised)     *)
+(*  hto    whether the peer's stream headers carry a `to` (the own address echoed)               *)
+AddrWF(a) == /\ (a.kind = "client" => a.loc = a.own)        \* location derived from the own address
+             /\ (a.kind = "s2s" => a.loc \in LocNames)      \* a server does not connect to itself
+             /\ (a.kind = "c2s" => a.loc = a.own \/ a.loc \in LocNames)
+Addrs == {a \in [kind : Kinds, own : OwnDoms, loc : OwnDoms \cup LocNames, spell : {"lower", "upper"}, hto : {"absent", "echo"}] : AddrWF(a)}
+(* the name the property asks for: the domain of the session's OWN address *)
+OwnName(a) == a.own
+
+(* the k-th session negotiated with one feature value: its own domain is d_k, its location that or l_k *)
+SessAddrs(k) == {a \in Addrs : a.own = DomOf[k] /\ a.loc \in {DomOf[k], LocOf[k]}}
+Quiet(a) == a.spell = "lower" /\ a.hto = "absent"
+Plain(k) == [kind |-> "c2s", own |-> DomOf[k], loc |-> DomOf[k], spell |-> "lower", hto |-> "absent"]
+
+(* A job: 1..3 successive sessions (their addresses: run) negotiated with ONE feature value   *)
+(* against peers that follow the same script, each under every tee setting of tees.            *)
+(*  - every peer script, three sessions of the plain kind with three own domains, four tees   *)
+(*  - the scripts that reach a handshake with the default configuration x every run of three  *)
+(*    sessions of every kind with the location equal to / different from the own domain, and  *)
+(*    every single session / every second session with every spelling / header form          *)
+AddrPeerScripts == {p \in PeerScripts : p.answer = "proceed" /\ p.inject = "none" /\ p.cfg = "default" /\ p.hs = "fail"
+                                        /\ p.feat \in {"tls_required", "tls_absent_others"}}
+QuietAddrs(k) == {a \in SessAddrs(k) : Quiet(a)}
+AddrRuns == {<<a, b, c>> : a \in QuietAddrs(1), b \in QuietAddrs(2), c \in QuietAddrs(3)}
+            \cup {<<a>> : a \in SessAddrs(1)} \cup {<<a, b>> : a \in QuietAddrs(1), b \in SessAddrs(2)}
+Jobs ==
+  {[peer |-> p, run |-> (IF p.cfg = "explicit" THEN <<Plain(1)>> ELSE <<Plain(1), Plain(2), Plain(3)>>), tees |-> <<0, 1, 2, 3>>] : p \in PeerScripts}
+  \cup {[peer |-> p, run |-> r, tees |-> <<0>>] : p \in AddrPeerScripts, r \in AddrRuns}
+
+(* one session of a job: the peer script, the session's address, the addresses of the sessions before it *)
+Full(p, a, h) == [feat |-> p.feat, answer |-> p.answer, inject |-> p.inject, hs |-> p.hs, cfg |-> p.cfg, addr |-> a, hist |-> h]
+Scripts == UNION {{Full(j.peer, j.run[k], SubSeq(j.run, 1, k - 1)) : k \in 1..Len(j.run)} : j \in Jobs}
 
 Init ==
   /\ phase = "start" /\ layer = "clear" /\ bits = {} /\ clearOut = <<>>
@@ -92,7 +149,10 @@ ReadAnswer ==
 (* not yet consumed is gone for good (it may also make the handshake fail)                    *)
 Handshake(name) ==
   /\ phase = "handshake"
-  /\ (script.cfg = "default" => name = "own" \/ "StaleSNI" \in Dev)   \* the session's own domain
+  /\ (script.cfg = "default" =>                                        \* the domain of the session's own address
+        \/ name = OwnName(script.addr)
+        \/ "StaleSNI" \in Dev /\ \E i \in 1..Len(script.hist) : name = OwnName(script.hist[i])   \* of an earlier session
+        \/ "RemoteSNI" \in Dev /\ name = script.addr.loc)                                        \* the location
   /\ (script.cfg = "explicit" => name = "explicit")                    \* whatever the supplied config says
   /\ sni' = name
   /\ IF script.hs = "ok" /\ script.inject # "garbage"
@@ -138,7 +198,7 @@ Abort == /\ result = "none" /\ phase # "start" /\ Fail
 Next ==
   \/ \E w \in {"hdr", "starttls", "other"} : ClearWrite(w)
   \/ PeerHeaderAndFeatures \/ ReadHeaderClear \/ ReadFeaturesClear \/ PeerAnswer \/ ReadAnswer
-  \/ \E n \in {"own", "other", "explicit"} : Handshake(n)
+  \/ \E n \in Names : Handshake(n)
   \/ TLSHeaderOut \/ ReadTLS \/ NegotiatePost \/ Abort
 
 Spec == Init /\ [][Next]_vars
@@ -149,6 +209,6 @@ C02_ClearWireOnly == clearOut \in {<<>>, <<"hdr">>, <<"hdr", "starttls">>}
 C02_BufferedClearDropped ==
   \A i \in 1..Len(used) : used[i][2] = "clear" => used[i][1] \in {"hdr", "answered"} \cup FeatVariants
 C02_NothingClearAfterLayer == layer = "tls" => pendClear = <<>> \/ "KeepBufferedClear" \in Dev
-C02_SNIOwnDomain == script.cfg = "default" => sni \in {"none", "own"}
+C02_SNIOwnDomain == script.cfg = "default" => sni \in {"none", OwnName(script.addr)}
 C02_ErrNotReady == result = "err" => "Ready" \notin bits
 =============================================================================
